@@ -455,6 +455,8 @@ func (ne *nitroEnv) finalStages() {
 	if mismatch != "" {
 		if !ne.closesOverlapped() {
 			env.Violate("C06", "final-close-did-not-collect", "no Close/GC calls overlapped, yet at quiescence: %s", mismatch)
+		} else if ne.lastCloseAlone() {
+			env.Violate("C06", "final-close-did-not-collect", "the last Close that retired a snapshot overlapped no other Close or GC call, yet at quiescence: %s", mismatch)
 		} else {
 			env.Probe("gc_trigger_lost_then_forced")
 		}
